@@ -307,6 +307,17 @@ def _tree_of_sympy(e):
     raise ValueError(f'not a polynomial expression: {e!r}')
 
 
+import sympy as _sympy
+
+
+class _Parameter(_sympy.Symbol):
+    """a user's Symbol subclass (sorts before Symbol in sympy's class order)"""
+
+
+class _Aaa(_sympy.Symbol):
+    pass
+
+
 def binding_stream(R, tier):
     import sympy
     from kingdon import MultiVector
@@ -343,7 +354,11 @@ def binding_stream(R, tier):
         if pool and rng.random() < 0.3:                  # names that are prefixes / case variants of one another
             base = rng.choice(pool)
             pool += [nm for nm in (base + '_', base + '0', base.swapcase(), base + base) if nm not in pool and nm.isidentifier()][:rng.randint(1, 2)]
-        syms = {nm: sympy.Symbol(nm) for nm in pool}
+        # symbols of different classes (a Symbol subclass, as MultiVector(symbolcls=...) produces): the binding goes by NAME, whatever
+        # order sympy's own sort keys would give the classes
+        mixed = it % 4 == 3
+        syms = {nm: (rng.choice([sympy.Symbol, _Parameter, _Aaa]) if mixed else sympy.Symbol)(nm) for nm in pool}
+        R.count('binding: symbol classes=' + ('mixed' if mixed else 'Symbol'))
         values, trees = [], []
         for k in ks:
             t = rand_tree(pool, rng.choice((0, 1, 2, 2, 3, 3)))
